@@ -202,6 +202,9 @@ class CallMixin:
     def bi_tuple(self, e, p):
         if not e.args:
             return T.scalar(T.TUP, TH.EMPTY_TUP)
+        if len(e.args) == 1 and isinstance(e.args[0], ast.GeneratorExp) and not e.keywords:
+            g = e.args[0]     # tuple(<generator>) is tuple([<the same comprehension>])
+            return self.ev_ListComp(ast.copy_location(ast.ListComp(elt=g.elt, generators=g.generators), g), p)
         return self.as_listing(self._one(e, p), p)
 
     def bi_list(self, e, p):
@@ -223,7 +226,7 @@ class CallMixin:
 
     def bag_of_set(self, st, s, p):
         bt = T.Bag(st.e)
-        b = fresh("bagofset", bt.sort())
+        b = TH.bagof_fn(st.e)(s)         # axioms bagof_def, bagof_len
         x = fresh("bx", st.e.sort())
         self._assume(p, z3.ForAll([x], b[x] == z3.If(s[x], 1, 0), patterns=[b[x], s[x]]))
         self._assume(p, bt.blen()(b) == st.card()(s))
@@ -330,6 +333,10 @@ class CallMixin:
     def bi_dict(self, e, p):
         if not e.args and not e.keywords:
             return SV(T.EMPTYDICT)
+        if len(e.args) == 1 and not e.keywords:
+            v = self.ev(e.args[0], p)
+            if v.ty == T.META or isinstance(v.ty, T.Map) or v.ty == T.EMPTYDICT:
+                return v          # a copy: values have no identity in this model
         raise Unsupported("dict(...)")
 
     def deepcopy(self, e, p):
